@@ -22,9 +22,8 @@ theorem join_partial (pfx full q : Bytes) : join (join pfx (full ++ dotP)) q = j
 (1 ≤ W < 256); `full` is listed in the same directory as `full.p` and parses as the *full* tile with the same
 level and index; the file that `overrideImmutable` independently stats (the text before the first
 `".p/"`) is that same sibling, a non-empty regular file; and the tile index is strictly left of the
-right edge of the published tree: `N < size / 256^(level+1)` (data/names/entries tiles count as
-level 0). The alternative `2^61 − 1 ≤ L` is Go's wrapped shift count for levels no int64-sized tree
-can have (see `edge_guard`); levels 7 … 2^61 − 2 make the tool panic before deleting. -/
+right edge of the published tree: level ≤ 6 and `N < size / 256^(level+1)` (data/names/entries tiles
+count as level 0; a tile above level 6 spans ≥ 2^64 leaves and is never deleted). -/
 theorem C18_only_partials {parse : Bytes → Option Tile} (hp : IsToolParser parse) (fs : FS) (size fuel : Nat)
     (p : Bytes) (h : p ∈ filesOf (cleanRoot fs parse size fuel).1) :
     ∃ (dir full : Bytes) (t : Tile) (entries : List Ent) (sib : Ent),
@@ -34,7 +33,7 @@ theorem C18_only_partials {parse : Bytes → Option Tile} (hp : IsToolParser par
       parse (join dir full) = some { t with W := 256 } ∧
       cutSub dotPSlash p = some (join dir full, fmtInt t.W) ∧
       fs.stat (join dir full) = some sib ∧ sib.isDir = false ∧ 0 < sib.size ∧
-      ((t.L ≤ 6 ∧ t.N < ((size / 256 ^ (lvl t + 1) : Nat) : Int)) ∨ 2305843009213693951 ≤ t.L) := by
+      t.L ≤ 6 ∧ t.N < ((size / 256 ^ (lvl t + 1) : Nat) : Int) := by
   have hj := cleanRoot_allJ fs parse size fuel _ (mem_filesOf.mp h)
   obtain ⟨pfx, full, q, entries, t0, t', hdir, hmem, hpeq, ht0, hedge, ht', hw, hov⟩ := hj
   rw [join_partial] at hpeq
@@ -60,11 +59,12 @@ theorem C18_only_partials {parse : Bytes → Option Tile} (hp : IsToolParser par
       have hedge' := edge_guard t0 size (by rw [e1]; exact hL0) hedge
       have hl : lvl t0 = lvl t' := by rw [e1]; rfl
       refine ⟨pfx, full, t', entries, sib, ?_, ?_, hW0, by omega, hdir, hmem, by rw [← e1]; exact ht0,
-        by rw [← e3]; exact hcut, hst, hov.1, by omega, ?_⟩
+        by rw [← e3]; exact hcut, hst, hov.1, by omega, ?_, ?_⟩
       · rw [join_partial, ← e3]; exact hpeq
       · rw [← hpeq] at ht'; exact ht'
+      · rw [e1] at hedge'; exact hedge'.1
       · rw [e1] at hedge'
-        simpa [lvl] using hedge'
+        simpa [lvl] using hedge'.2
 
 /-- non-vacuity: a directory of a tree with 600 leaves in which `tile/0/001.p/44` is superseded -/
 def demoFS : FS where
@@ -86,12 +86,12 @@ example : cleanRoot demoFS sunlightParse 300 8 = ([], .ok) := by decide
 example : (cleanRoot { demoFS with stat := fun _ => some ⟨[], false, 0⟩ } sunlightParse 600 8) = ([], .abort) := by decide
 
 /-- **Safe for every later size.** No deleted file is read by anyone fetching or verifying the tree
-of any size `S ≥ size` (an `int64`): in particular the tree at the lock-store checkpoint when the lock
-store is ahead of the published checkpoint, and every future tree. -/
+of any size `S ≥ size`: in particular the tree at the lock-store checkpoint when the lock store is
+ahead of the published checkpoint, and every future tree. -/
 theorem C18_safe_all_sizes {parse : Bytes → Option Tile} (hp : IsToolParser parse) (fs : FS) (size fuel : Nat)
-    (S : Nat) (hS : size ≤ S) (hS63 : S < 9223372036854775808)
+    (S : Nat) (hS : size ≤ S)
     (p : Bytes) (h : p ∈ filesOf (cleanRoot fs parse size fuel).1) : ¬ needed parse S p := by
-  obtain ⟨dir, full, t, entries, sib, _, hpt, hW0, hW1, _, _, _, _, _, _, _, hedge⟩ :=
+  obtain ⟨dir, full, t, entries, sib, _, hpt, hW0, hW1, _, _, _, _, _, _, _, _, hlt⟩ :=
     C18_only_partials hp fs size fuel p h
   rintro ⟨t2, ht2, hn⟩
   rw [hpt] at ht2
@@ -100,17 +100,8 @@ theorem C18_safe_all_sizes {parse : Bytes → Option Tile} (hp : IsToolParser pa
   simp only [Bool.or_eq_true, Bool.and_eq_true, beq_iff_eq, decide_eq_true_eq, bne_iff_ne, ne_eq] at hn
   rcases hn with ⟨hw, _⟩ | ⟨⟨hN, hW⟩, hw0⟩
   · omega
-  · rcases hedge with ⟨_, hlt⟩ | hbig
-    · have : size / 256 ^ (lvl t + 1) ≤ S / 256 ^ (lvl t + 1) := Nat.div_le_div_right hS
-      omega
-    · -- levels ≥ 8: nothing of an int64-sized tree lives there
-      apply hw0
-      have hl : 8 ≤ lvl t := by unfold lvl; omega
-      have h1 : 256 ^ 8 ≤ 256 ^ lvl t := Nat.pow_le_pow_right (by decide) hl
-      have h2 : (256 : Nat) ^ 8 = 18446744073709551616 := by decide
-      have : S / 256 ^ lvl t = 0 := Nat.div_eq_of_lt (by omega)
-      rw [this]
-      rfl
+  · have : size / 256 ^ (lvl t + 1) ≤ S / 256 ^ (lvl t + 1) := Nat.div_le_div_right hS
+    omega
 
 /-- non-vacuity: the needed set is not empty, and the deleted file of the demo is outside it for later sizes -/
 example : needed sunlightParse 600 (ascii "tile/0/002.p/88") := ⟨⟨8, 0, 2, 88⟩, by decide, by decide⟩
@@ -118,7 +109,7 @@ example : needed sunlightParse 600 (ascii "tile/0/001") := ⟨⟨8, 0, 1, 256⟩
 example : needed sunlightParse 300 (ascii "tile/0/001.p/44") := ⟨⟨8, 0, 1, 44⟩, by decide, by decide⟩
 example : needed torchwoodParse 300 (ascii "tile/entries/001.p/44") := ⟨⟨8, -1, 1, 44⟩, by decide, by decide⟩
 example : ¬ needed sunlightParse 600 (ascii "tile/0/001.p/44") :=
-  C18_safe_all_sizes .sunlight demoFS 600 8 600 (by decide) (by decide) _ (by decide)
+  C18_safe_all_sizes .sunlight demoFS 600 8 600 (by decide) _ (by decide)
 
 /-- **Nothing else is ever removed.** Every deletion is either a file `a.p/W` that parses as a partial
 tile (1 ≤ W < 256, canonical spelling), or a directory `a.p` whose full sibling `a` is listed next to
@@ -142,6 +133,15 @@ theorem C18_never_other {parse : Bytes → Option Tile} (hp : IsToolParser parse
     exact ⟨pfx, full, entries, partials, t, h3, h1, h2, h4, h5, h6, fun e he => mem_filesOf.mpr (h7 e he)⟩
 
 example : Del.dir (ascii "tile/0/001.p") ∈ (cleanRoot demoFS sunlightParse 600 8).1 := by decide
+
+/-- **No panic.** The right-edge arithmetic is total on every tile a tool parser returns: levels above 6
+are cut off before the shift (`t.L > 6 → continue`), below that the divisor is `256^(level+1)`. -/
+theorem C18_edge_total {parse : Bytes → Option Tile} (hp : IsToolParser parse) (p : Bytes) (t : Tile)
+    (h : parse p = some t) (size : Nat) : atOrRightOfEdge t size ≠ none :=
+  atOrRightOfEdge_ne_none t size (parser_dom hp p t h).2.1
+/-- level 7 and the level whose shift count used to wrap to 0 are kept, whatever the index -/
+example : atOrRightOfEdge ⟨8, 7, 0, 256⟩ 1000000 = some true ∧
+    atOrRightOfEdge ⟨8, 9223372036854775807, 0, 256⟩ 1000000 = some true := by decide
 
 /-- position-wise relation between the roots of a run and the deletions made in them -/
 inductive AllPairs (P : Root → List Del → Prop) : List Root → List (List Del) → Prop
